@@ -2,6 +2,7 @@
 
 use crate::check::{self, Replay};
 use crate::fam_c06::C06Enum;
+use crate::fam_c09::C09Enum;
 use crate::fam_c12::C12c;
 use crate::fam_c13::C13;
 use crate::fam_c14::{self, C14};
@@ -13,6 +14,7 @@ pub fn worker(family: &str, prop: &str, seed: u64, start: u64, stride: u64, tota
         "c13" => check::worker::<C13>(prop, seed, start, stride, total),
         "c12c" => check::worker::<C12c>(prop, seed, start, stride, total),
         "c06enum" => check::worker::<C06Enum>(prop, seed, start, stride, total),
+        "c09enum" => check::worker::<C09Enum>(prop, seed, start, stride, total),
         "c14" => check::worker::<C14>(prop, seed, start, stride, total),
         _ => {
             eprintln!("harness error: unknown family {family}");
@@ -27,6 +29,7 @@ pub fn replay(r: &Replay) -> i32 {
         "c13" => check::replay::<C13>(r),
         "c12c" => check::replay::<C12c>(r),
         "c06enum" => check::replay::<C06Enum>(r),
+        "c09enum" => check::replay::<C09Enum>(r),
         "c14" => check::replay::<C14>(r),
         _ => {
             eprintln!("harness error: unknown replay family {}", r.family);
@@ -52,6 +55,19 @@ pub fn check(prop: &str, tier: &str) -> i32 {
             let mut ev = merge_evidence(e1, e2.unwrap(), "enumerated", "seeded_mutation", c1.max(c2));
             // Only the enumerated sub-batch is exhaustive (for its stated space).
             ev["coverage"].as_object_mut().unwrap().remove("exhaustive");
+            check::write_evidence(prop, &ev);
+            c1.max(c2)
+        }
+        "C09" => {
+            let (c1, e1) = check::run_check::<crate::repl_engine::Repl>(prop, tier, "exploration", serde_json::Value::Null);
+            if c1 == 2 {
+                return 2;
+            }
+            let (c2, e2) = check::run_check::<C09Enum>(prop, tier, "exploration", serde_json::Value::Null);
+            if c2 == 2 {
+                return 2;
+            }
+            let ev = merge_evidence(e1.unwrap(), e2.unwrap(), "seeded", "crash_points", c1.max(c2));
             check::write_evidence(prop, &ev);
             c1.max(c2)
         }
